@@ -644,7 +644,9 @@ Fixpoint all_ok (ops : list op) (obs : list snap) : bool :=
 
 (* ------------------------------------------------------------------ *)
 (* Entry points of the correspondence check *)
-Record case := { c_cats : cattab; c_ops : list op }.
+(* c_tag: 0, or (conformance runs) 1 = the history goes through ConjunctiveGraph.default_context
+   (finding F6e) *)
+Record case := { c_cats : cattab; c_ops : list op; c_tag : N }.
 
 Definition c_split (c : case) := split_uri (cat_of (c_cats c)) false.
 Definition c_split_s (c : case) := split_uri (cat_of (c_cats c)) true.
@@ -688,3 +690,15 @@ Definition conf_model (c : case) : cobs := ([], []).
 Definition conf_eqb (a b : cobs) : bool := true.
 Definition conf_spec (c : case) (o : cobs) : bool :=
   match snd o with [] => true | l => all_ok (c_ops c) (map (dec_snap (fst o)) l) end.
+
+(* The model-backed suites hand the implementation's observation over in the packed form
+   as well; the model's is plain.  Both are compared and checked after decoding. *)
+Inductive dobs := Plain (o : obs) | Packed (t : list str) (l : list isnap).
+Definition dec_d (d : dobs) : obs :=
+  match d with Plain o => o | Packed t l => map (dec_snap t) l end.
+Definition d_model (c : case) : dobs := Plain (model_obs c).
+Definition d_eqb (a b : dobs) : bool := obs_eqb (dec_d a) (dec_d b).
+Definition d_spec (c : case) (o : dobs) : bool := spec_ok c (dec_d o).
+
+(* F6e region (conformance runs over a Dataset / ConjunctiveGraph) *)
+Definition conf_kf (c : case) : N := if N.eqb (c_tag c) 1 then 4%N else 0%N.
